@@ -17,6 +17,7 @@ import (
 	"syscall"
 	"time"
 
+	"verif/internal/child"
 	"verif/internal/h"
 )
 
@@ -213,6 +214,7 @@ func main() {
 		fatal2("mkdtemp: %v", err)
 	}
 	defer os.RemoveAll(work)
+	housekeeping()
 	os.MkdirAll(filepath.Join(root, "evidence"), 0o755)
 	os.MkdirAll(filepath.Join(root, "replays"), 0o755)
 
@@ -428,6 +430,7 @@ func main() {
 		fmt.Printf("  %s\n", strings.ReplaceAll(v.Msg, "\n", "\n  "))
 	}
 	if len(violations) > 0 {
+		os.RemoveAll(work) // os.Exit does not run the deferred clean-up
 		os.Exit(1)
 	}
 	if len(inconclusive) > 0 {
@@ -437,7 +440,36 @@ func main() {
 			}
 			fmt.Printf("INCONCLUSIVE property=%s replay=%s\n  %s\n", id, v.Replay, strings.ReplaceAll(v.Msg, "\n", "\n  "))
 		}
+		os.RemoveAll(work)
 		os.Exit(2)
+	}
+}
+
+// housekeeping bounds what the checks leave on disk: the dedicated build cache of the child programs
+// (every synthesised program is a new package: Go only trims cache entries after five days) and work
+// directories of runs that were killed.
+func housekeeping() {
+	cache := child.GoCache()
+	// the cache has 256 two-hex-digit sub-directories of similar size: measure one
+	var sample int64
+	filepath.Walk(filepath.Join(cache, "00"), func(_ string, info os.FileInfo, err error) error {
+		if err == nil && !info.IsDir() {
+			sample += info.Size()
+		}
+		return nil
+	})
+	if sample*256 > 12<<30 {
+		// concurrent checks only lose cached objects: the go command rebuilds what is missing
+		os.RemoveAll(cache)
+	}
+	old := time.Now().Add(-6 * time.Hour)
+	for _, pat := range []string{"verif-C??-*", "verif-scratch-*"} {
+		dirs, _ := filepath.Glob(filepath.Join(os.TempDir(), pat))
+		for _, d := range dirs {
+			if st, err := os.Stat(d); err == nil && st.IsDir() && st.ModTime().Before(old) {
+				os.RemoveAll(d)
+			}
+		}
 	}
 }
 
